@@ -1342,8 +1342,11 @@ func main() {
 			"kind 2: 2-4 small programs (arena-growth-in-child then parent operands, reads of untouched memory after a dirtying program, random code, jump-heavy code, precompile calls) " +
 			"each run directly and below trampolines at depths 0-6, in random order, with per-EVM or shared jumpdest/precompile caches, released or leaked arenas, then in 0-4 goroutines; " +
 			"kind 3: precompile inputs and siblings that normalise alike, cached vs uncached. " +
+			"Arena scripts also run the real opDupN/opSwapN/opExchange (EIP-8024) in child frames holding h items, h within 2 of what the immediate needs. " +
+			"In kind 2 every trampoline keeps live sentinel words (derived from a per-run GASPRICE) on its stack across the CALL and hands them back; boundary probes execute ANY opcode byte at heights around its minStack/maxStack (EIP-8024: around the immediate's depth) directly and nested. " +
+			"kind 4: call histories over 8 accounts (code, EIP-7702 delegations, forwarders holding live words) in which code changes between calls, executed three ways - fresh EVM+caches per call / shared chain-wide jumpdest+precompile caches with pooled arenas / one EVM for the whole history - and compared call by call (return data, gas, error class, logs) and by final state root. " +
 			"Non-trivial: kind 0 with >= 2 nested frames and a value read in a parent after its child was released; kind 1 with a pooled-object reuse and a read; " +
-			"kind 2 with a successful non-empty reference result, >= 2 runs and depth >= 1; kind 3 with a successful non-empty output; distinct = distinct case line.",
+			"kind 2 with a successful non-empty reference result, >= 2 runs and depth >= 1; kind 3 with a successful non-empty output; kind 4 with >= 3 calls, >= 2 successful, a code change after the first call and a delegation; distinct = distinct case line.",
 		Gen: gen,
 		Run: run,
 	})
